@@ -43,6 +43,10 @@ func SessionWeights() Weights {
 }
 
 type G struct {
+	// NodeNames/NodeIDList: the node universe of this generator (default: without case variants;
+	// CaseVariantNodes() adds "N1", which the catalog treats as the same node as "n1")
+	NodeNames  []string
+	NodeIDList []types.NodeID
 	R        *core.Rand
 	W        Weights
 	sessSeq  int
@@ -50,7 +54,12 @@ type G struct {
 	idSeq    int
 }
 
-func New(r *core.Rand, w Weights) *G { return &G{R: r, W: w} }
+func New(r *core.Rand, w Weights) *G {
+	return &G{R: r, W: w, NodeNames: []string{"n1", "n2", "n3", "n1x"}, NodeIDList: NodeIDs}
+}
+
+// CaseVariantNodes switches the node universe to one containing "n1" and "N1".
+func (g *G) CaseVariantNodes() *G { g.NodeNames = Nodes; return g }
 
 // ---------- universe ----------
 
@@ -65,7 +74,7 @@ var DCs = []string{"dc1", "dc2"}
 
 func uuid(n int) string { return fmt.Sprintf("%08x-aaaa-bbbb-cccc-%012x", n, n) }
 
-func (g *G) node() string   { return core.Pick(g.R, Nodes) }
+func (g *G) node() string   { return core.Pick(g.R, g.NodeNames) }
 func (g *G) svc() string    { return core.Pick(g.R, Services) }
 func (g *G) peer() string   { return core.Pick(g.R, Peers) }
 func (g *G) status() string { return core.Pick(g.R, []string{api.HealthPassing, api.HealthPassing, api.HealthWarning, api.HealthCritical}) }
@@ -118,6 +127,9 @@ func (g *G) nodeService(name string, peer string) *structs.NodeService {
 		}
 		ns.Proxy = structs.ConnectProxyConfig{DestinationServiceName: dest, DestinationServiceID: dest}
 		nu := r.Intn(3)
+		if peer != "" {
+			nu = 0 // imported instances never carry upstreams (the exporter does not send sidecar config)
+		}
 		for i := 0; i < nu; i++ {
 			u := structs.Upstream{DestinationName: g.svc(), LocalBindPort: 9000 + i}
 			if r.Chance(15) {
@@ -134,9 +146,9 @@ func (g *G) nodeService(name string, peer string) *structs.NodeService {
 	case 3:
 		ns.Connect.Native = true
 	case 4:
-		k := core.Pick(r, []structs.ServiceKind{structs.ServiceKindIngressGateway, structs.ServiceKindTerminatingGateway, structs.ServiceKindMeshGateway})
-		ns.Kind = k
-		ns.Service = core.Pick(r, []string{"igw", "tgw", "mgw"})
+		gi := r.Intn(3)
+		ns.Kind = []structs.ServiceKind{structs.ServiceKindIngressGateway, structs.ServiceKindTerminatingGateway, structs.ServiceKindMeshGateway}[gi]
+		ns.Service = []string{"igw", "tgw", "mgw"}[gi]
 		ns.ID = ns.Service
 	}
 	if r.Chance(10) {
@@ -170,8 +182,8 @@ func (g *G) check(node string, svc *structs.NodeService, peer string) *structs.H
 func (g *G) Register() Cmd {
 	r := g.R
 	peer := g.peer()
-	i := r.Intn(len(Nodes))
-	req := structs.RegisterRequest{Datacenter: "dc1", Node: Nodes[i], Address: "10.0.0." + fmt.Sprint(1+i), PeerName: peer}
+	i := r.Intn(len(g.NodeNames))
+	req := structs.RegisterRequest{Datacenter: "dc1", Node: g.NodeNames[i], Address: "10.0.0." + fmt.Sprint(1+i), PeerName: peer}
 	switch r.Intn(10) {
 	case 0, 1, 2, 3, 4:
 		req.ID = NodeIDs[i]
@@ -327,8 +339,8 @@ func (g *G) TxnOp(s *state.Store, idx uint64) *structs.TxnOp {
 		return &structs.TxnOp{KV: &structs.TxnKVOp{Verb: v, DirEnt: g.dirent(s, v, idx)}}
 	case 4:
 		v := core.Pick(r, []api.NodeOp{api.NodeGet, api.NodeSet, api.NodeCAS, api.NodeDelete, api.NodeDeleteCAS})
-		i := r.Intn(len(Nodes))
-		n := structs.Node{Node: Nodes[i], Address: "10.0.1." + fmt.Sprint(i), ID: NodeIDs[i], Datacenter: "dc1"}
+		i := r.Intn(len(g.NodeNames))
+		n := structs.Node{Node: g.NodeNames[i], Address: "10.0.1." + fmt.Sprint(i), ID: NodeIDs[i], Datacenter: "dc1"}
 		if r.Chance(20) {
 			n.Meta = map[string]string{"t": "x"}
 		}
